@@ -68,6 +68,7 @@ MUTATORS = {
         ("attach without reindex", r"quimb/tensor/gating\.py$", r"^(\s+)tn\.reindex_\(reindex_map\)\s*$", None),
     ],
     "C07": [
+        ("copy forgets the lazily created counter", r"quimb/tensor/circuit/core\.py$", r"^(\s+)new\._marginal_storage_size = getattr\(self, \"_marginal_storage_size\", 0\)\s*$", None),
         ("tags into the wrong constructor slot", r"quimb/tensor/circuit/exact\.py$", r"^(\s+)super\(\)\.__init__\(N, psi0, gate_opts, tags=tags, \*\*circuit_opts\)\s*$", r"\1super().__init__(N, psi0, gate_opts, tags, **circuit_opts)"),
         ("drop staleness check", r"quimb/tensor/circuit/(exact|mps)\.py$", r"^(\s+)self\._maybe_init_storage\(\)\s*$", None,
          # (these four only reach the caches through callees that carry their own guard: dropping theirs changes nothing)
@@ -88,6 +89,7 @@ MUTATORS = {
         ("submpo: ends swapped", r"quimb/tensor/tn1d/core\.py$", r"^(\s+)info\[\"cur_orthog\"\] = \(sf, sf\)\s*$", r'\1info["cur_orthog"] = (si, si)'),
     ],
     "C09": [
+        ("MPS stores the number of arrays", r"quimb/tensor/tn1d/core\.py$", r"^(\s+)self\._L = L\s*$", r"\1self._L = len(arrays)", r"^__init__$"),
         ("MPO chain closed at L", r"quimb/tensor/tn1d/core\.py$", r"^(\s+)if \(i \+ 1\) < num_sites or cyclic:\s*$", r"\1if (i + 1) < L or cyclic:", r"^from_fill_fn$"),
         ("identity MPO forgets L", r"quimb/tensor/tensor_builder\.py$", r"^(\s+)mpo_opts\[\"L\"\] = L\s*$", None),
         ("direct product keeps the isometry flag", r"quimb/tensor/tensor_core\.py$", r"^(\s+)new_T\.modify\(data=new_data\)\s*$", r"\1new_T.modify(data=new_data, left_inds=T1.left_inds)"),
@@ -115,6 +117,7 @@ MUTATORS = {
         ("boundary gate on sorted pair", r"quimb/tensor/tn1d/tebd\.py$", r"^(\s+)U, where=sites, absorb=\"left\", \*\*self\.split_opts\s*$", r'\1U, where=(0, self.L - 1), absorb="left", **self.split_opts'),
     ],
     "C12": [
+        ("whole working network equalized while environments are stored", r"quimb/tensor/tn2d/core\.py$", r"^(\s+)tn_boundary\.equalize_norms_\(equalize_norms\)\s*$", r"\1tn.equalize_norms_(equalize_norms)"),
         ("skip predicate looks at one tensor only", r"quimb/tensor/tensor_core\.py$", r"^(\s+)and \(len\(tn\._get_neighbor_tids\(\[tid2\]\)\) <= 2\)\s*$", r"\1and (len(tn._get_neighbor_tids([tid1])) <= 2)"),
         ("canonize options not handed on", r"quimb/tensor/tensor_core\.py$", r"^(\s+)canonize_opts=canonize_opts,\s*$", None, r"^_contract_around_tids$"),
         ("drop cap (boundary)", r"quimb/tensor/(tn2d/core|tn3d/core|tnag/compress|tensor_core)\.py$", r"^(\s+)max_bond=max_bond,\s*$", None),
